@@ -2,7 +2,8 @@
 C19  anyio.itertools and functools.reduce agree with the standard library; tee.
 
 Property theorems only.  Models: `AnyioModel.Iter.Itertools` (impl_f / spec_f),
-`AnyioModel.Iter.Reduce`, `AnyioModel.Iter.Tee` (LTS); lemmas in `ItertoolsProofs`, `TeeProofs`.
+`AnyioModel.Iter.Reduce`, `AnyioModel.Iter.Tee` (LTS); lemmas in `ItertoolsProofs`, `TeeProofs`,
+`TeeProofs2`, `TeeProofs3`.
 
 `C19_<f> : impl_f args xs = spec_f args xs` for ALL arguments (also the invalid ones: both sides
 are then the same error class) and ALL finite element sequences, over any element type.  The
@@ -12,7 +13,7 @@ takes the kind of source as a parameter).  That `spec_f` is what CPython's `iter
 computes is not a theorem: it is the third leg of the harness's differential check.
 -/
 import AnyioModel.Iter.ItertoolsProofs
--- import AnyioModel.Iter.TeeProofs
+import AnyioModel.Iter.TeeProofs3
 
 namespace AnyioModel.Iter
 
@@ -191,3 +192,144 @@ example : impl_reduce .async (· - ·) none ([] : List Int) = .error .typeError 
 example : impl_reduce .async (· - ·) (some 7) ([] : List Int) = .ok 7 := by decide
 
 end AnyioModel.Iter
+
+/-! ### tee -/
+
+namespace AnyioModel.Iter.Tee
+variable {α : Type}
+
+/-- the invariant of `TeeProofs` holds in every reachable state: any number of consumers, any
+source sequence, any interleaving of `next i` / `step i` / source answers -/
+theorem C19_tee_invariant {n : Nat} {xs : List α} {s : State α} (h : Reach n xs s) : Inv xs s := by
+  refine Reachable.invariant (Inv xs) ?_ ?_ s h
+  · rintro s rfl; exact inv_init n xs
+  · intro s e s' o hi hs; exact inv_step hi hs
+
+/-- Every consumer observes exactly the source sequence, under every interleaving: at every
+moment what `__anext__` has returned to consumer `i` is a prefix of the source sequence, of the
+length of its cursor (minus a value taken but not yet handed out), and once consumer `i` has
+received StopAsyncIteration it has been given the complete sequence. -/
+theorem C19_tee_complete {n : Nat} {xs : List α} {s : State α} (h : Reach n xs s) (i : Nat) :
+    (∃ rest, xs = s.seen i ++ rest) ∧
+    (s.seen i ++ pend (s.pc i) = xs.take (s.cursor i)) ∧
+    (s.finished i = true → s.seen i = xs) := by
+  have hi := C19_tee_invariant h
+  have h4 := hi.seen_ok i
+  have h3 := hi.cursor_le i
+  have h1 := hi.src_ok
+  have htake : xs.take (s.cursor i) = s.consumed.take (s.cursor i) := by
+    rw [← h1, List.take_append_of_le_length h3]
+  refine ⟨⟨pend (s.pc i) ++ s.consumed.drop (s.cursor i) ++ s.src, ?_⟩, ?_, ?_⟩
+  · rw [← List.append_assoc, ← List.append_assoc, h4, List.take_append_drop, h1]
+  · rw [htake]; exact h4
+  · intro hf
+    obtain ⟨_, e2, e3, e4⟩ := hi.fin_ok i (Or.inl hf)
+    rw [e4, e3, List.take_length, List.append_nil] at h4
+    rw [h4, ← h1, e2, List.append_nil]
+
+/-- The source is consumed once: its `__anext__` has been invoked once per element handed to
+the chain, once more if the end has been seen, once more while a call is in flight -- never more
+than `len + 1` times, and exactly `len + 1` times once any consumer has finished. -/
+theorem C19_tee_once {n : Nat} {xs : List α} {s : State α} (h : Reach n xs s) :
+    s.srcCalls = s.links.length + pendingCall s.owner s.pc ∧
+    s.srcCalls ≤ xs.length + 1 ∧
+    (∀ i, s.finished i = true → s.srcCalls = xs.length + 1) := by
+  have hi := C19_tee_invariant h
+  have h1 := hi.src_ok
+  have hlen : s.consumed.length + s.src.length = xs.length := by
+    rw [← h1, List.length_append]
+  have hp : pendingCall s.owner s.pc = 0 ∨
+      (pendingCall s.owner s.pc = 1 ∧ s.links = s.consumed.map some) := by
+    cases ho : s.owner with
+    | none => left; rfl
+    | some k =>
+      rw [pendingCall_some]
+      cases hk : (s.pc k).isSrcWait with
+      | false => left; simp
+      | true => right; exact ⟨by simp, (hi.srcwait k hk).1⟩
+  refine ⟨hi.calls, ?_, ?_⟩
+  · rw [hi.calls]
+    rcases hp with hp | ⟨hp, hl⟩
+    · rcases hi.links_ok with hl | ⟨hl, hs⟩
+      · rw [hp, hl]; simp; omega
+      · rw [hp, hl]; simp; omega
+    · rw [hp, hl]; simp; omega
+  · intro i hf
+    obtain ⟨e1, e2, _, _⟩ := hi.fin_ok i (Or.inl hf)
+    rw [hi.calls]
+    rcases hp with hp | ⟨hp, hl⟩
+    · rw [hp, e1]; simp [e2] at hlen ⊢; omega
+    · rw [hl] at e1; exact absurd e1 (append_ne_self _ _)
+
+/-- the lock is never re-acquired by its owner: `next` never ends in `Lock`'s RuntimeError -/
+theorem C19_tee_no_runtime_error {n : Nat} {xs : List α} {s s' : State α} {e : Ev}
+    (h : Reach n xs s) : step s e ≠ some (s', .runtimeError) := by
+  have hi := C19_tee_invariant h
+  intro hs
+  cases e with
+  | next i =>
+    simp only [step] at hs
+    split at hs
+    · contradiction
+    · rename_i hidle
+      have hpc : s.pc i = .idle := by
+        have : i < s.n ∧ (s.pc i).isIdle = true := by simpa using hidle
+        exact isIdle_iff.mp this.2
+      split at hs
+      · rename_i l hl
+        cases l <;> simp only [afterFill] at hs
+        · split at hs <;> cases hs
+        · simp at hs
+      · split at hs
+        · cases hs
+        · split at hs
+          · rename_i ho
+            have := (hi.holder i).mpr ho
+            rw [hpc] at this; simp at this
+          · cases hs
+  | step i =>
+    simp only [step] at hs
+    split at hs <;> try contradiction
+    · split at hs
+      · rename_i l hl
+        have e2 := congrArg Prod.snd (Option.some.inj hs)
+        cases l <;> simp only [afterFill] at e2
+        · split at e2 <;> cases e2
+        · simp at e2
+      · cases hs
+    · split at hs <;> cases hs
+  | srcYield =>
+    simp only [step] at hs
+    split at hs
+    · split at hs
+      · contradiction
+      · have e2 := congrArg Prod.snd (Option.some.inj hs)
+        simp [afterFill] at e2
+    · contradiction
+  | srcEnd =>
+    simp only [step] at hs
+    split at hs
+    · split at hs
+      · contradiction
+      · have e2 := congrArg Prod.snd (Option.some.inj hs)
+        simp only [afterFill] at e2
+        split at e2 <;> cases e2
+    · contradiction
+
+/-! non-vacuity: a contended run of two consumers over [5, 6] -/
+
+example :
+    (traceFrom step (init 2 [5, 6])
+      [.next 0, .next 1, .step 0, .srcYield, .step 1, .next 1, .step 1, .srcYield, .next 0, .step 0,
+       .next 0, .step 0, .srcEnd, .next 1]).map (·.2) =
+    some [.susp, .susp, .susp, .ret 5, .ret 5, .susp, .susp, .ret 6, .susp, .ret 6,
+          .susp, .susp, .stop, .stop] := by decide
+
+example :
+    ((runFrom step (init 2 [5, 6])
+      [.next 0, .next 1, .step 0, .srcYield, .step 1, .next 1, .step 1, .srcYield, .next 0, .step 0,
+       .next 0, .step 0, .srcEnd, .next 1]).map
+        fun s => (s.seen 0, s.seen 1, s.finished 0, s.finished 1, s.srcCalls)) =
+    some ([5, 6], [5, 6], true, true, 3) := by decide
+
+end AnyioModel.Iter.Tee
